@@ -30,3 +30,7 @@ k2 = [i for i, x in enumerate(fr2) if x['via'] == 'param' and x['status'] == 'ok
 fr2[k2]['status'] = 'diagnosed'; fr2[k2]['out'] = []
 bad2, summ, err, st = flagscheck.Validate(fr2, 'c10corruptf', nshards=1)
 print('flags corrupted: bad', {i: v['why'] for i, v in bad2.items() if i not in bad}, 'errors', len(err))
+import shutil
+from harness import common
+for tag in ('c10corrupt', 'c10corruptf'):
+  shutil.rmtree(os.path.join(common.BUILD, 'trace', tag), ignore_errors=True)
